@@ -26,9 +26,9 @@ subs = json.load(open(subs_path)) if os.path.exists(subs_path) else {"total": 0,
 thorough = tier == "thorough"
 # (body, threads, preemption bound)
 if thorough:
-    jobs = [("B1", 2, "none"), ("B1", 3, "3"), ("B2", 2, "none"), ("B2", 3, "3"), ("B3", 2, "none"), ("B3", 3, "3"), ("B4", 2, "none"), ("B4", 3, "none"), ("B4", 4, "3"), ("B5", 2, "none"), ("B5", 3, "3"), ("B6", 2, "none"), ("B6", 3, "none")]
+    jobs = [("B1", 2, "5"), ("B1", 3, "3"), ("B2", 2, "none"), ("B2", 3, "3"), ("B3", 2, "none"), ("B3", 3, "3"), ("B4", 2, "none"), ("B4", 3, "none"), ("B4", 4, "3"), ("B5", 2, "6"), ("B5", 3, "3"), ("B6", 2, "none"), ("B6", 3, "none")]
 else:
-    jobs = [("B1", 2, "3"), ("B1", 3, "2"), ("B2", 2, "3"), ("B2", 3, "2"), ("B3", 2, "none"), ("B3", 3, "2"), ("B4", 2, "none"), ("B4", 3, "3"), ("B5", 2, "3"), ("B5", 3, "2"), ("B6", 2, "none"), ("B6", 3, "3")]
+    jobs = [("B1", 2, "4"), ("B1", 3, "2"), ("B2", 2, "3"), ("B2", 3, "2"), ("B3", 2, "none"), ("B3", 3, "2"), ("B4", 2, "none"), ("B4", 3, "3"), ("B5", 2, "3"), ("B5", 3, "2"), ("B6", 2, "none"), ("B6", 3, "3")]
 timeout = 3300 if thorough else 100
 if NO_LOOM:
     jobs = []
